@@ -264,6 +264,16 @@ def run(ctx: core.Ctx, only=None) -> core.Result:
                                               'input': {**case, 'mode': mode, 'point_kind': pk, 'band': bnd, 'point': p,
                                                         'd': list(which), 'output': oi, 'history': hlist},
                                               'impl': g, 'model': e, 'scale': s_})
+                    if bnd not in ('snap', 'unstable'):
+                        # away from the coincidence band the model value IS the derivative of the interpolant the surrogate
+                        # predicts with (theorems C11.jacobian_hessian_are_derivatives / hessian_cross_is_derivative about
+                        # gradT / hessT, C05 for the prediction): the point is a failing input of the property
+                        res.failures.append({'kind': ('gradient' if kind == 'g' else 'hessian') +
+                                                     '-differs-from-the-derivative-of-the-predicted-interpolant',
+                                             'signature': 'none',
+                                             'input': {**case, 'mode': mode, 'point_kind': pk, 'band': bnd, 'point': p,
+                                                       'd': list(which), 'output': oi, 'history': hlist},
+                                             'observed': g, 'expected': e, 'scale': s_})
                 if oi in cur['truth'] and bnd != 'snap':
                     t = cur['truth'][oi]
                     if not (abs(g - t) <= 10 * rt * s_ + 1e-10 * cancel + 1e-9):
